@@ -133,7 +133,7 @@ def handshake_oracle(ix: Index, scn: dict) -> list[Violation]:
 class C06(CheckBase):
     pid = "C06"
     level = "exploration"
-    quick_cases = 1600
+    quick_cases = 6400
     thorough_cases = len(_MATRIX) * 2
 
     def cases(self, rng: random.Random, tier: str, idx: int) -> Iterable[dict]:
